@@ -559,6 +559,19 @@ package table
 //@   at-return requires old(info.RouteServerClient) ==> ret0 == original
 //@   at-return requires !old(info.RouteServerClient) ==> ret0 != nil && fresh(ret0)
 
+// the same for AGGREGATOR: once its AS is held as a 4-octet number the attribute is 8 octets long
+//@ props C11
+//@ spec wfAgg(a bgp.PathAttributeInterface) bool = typeOf(a) == (*bgp.PathAttributeAggregator) && a.(*bgp.PathAttributeAggregator) != nil && a.(*bgp.PathAttributeAggregator).Value.Askind == reflect.Uint32 ==> a.(*bgp.PathAttributeAggregator).Length == 8
+//@ func UpdatePathAggregator4ByteAs
+//@   address-quant
+//@   assume-checks
+//@   requires msg != nil
+//@   requires forall k int :: 0 <= k && k < len(msg.PathAttributes) ==> wfAgg(msg.PathAttributes[k])
+//@   claims inv-init inv-keep at-return
+//@   loop 0 invariant forall k int :: 0 <= k && k < len(msg.PathAttributes) ==> wfAgg(msg.PathAttributes[k])
+//@   loop 0 invariant aggAttr != nil ==> aggAttr.Value.Askind == reflect.Uint32 && aggAttr.Length == 8
+//@   at-return requires aggAttr != nil ==> aggAttr.Value.Askind == reflect.Uint32 && aggAttr.Length == 8
+
 // =============================================================================================
 // C14 — the 2-octet/4-octet AS transition: reconstruction from AS_PATH + AS4_PATH
 // =============================================================================================
